@@ -1095,3 +1095,51 @@ package main
 //@ invariant[0] imp(dn && !weird && has(eot.AttrTypes, "x"), has(ceo.Attrs, "x"))
 //@ invariant[0] imp(dn && !weird && has(eot.AttrTypes, "x"), ceo.Attrs["x"] == encX)
 //@ ensures [C03,C09,C02,C08] imp(isCT && inr && !weird, is(el, types.Object) && !eo.Unknown && eo.AttrTypes == eot.AttrTypes && !eo.Null && imp(has(eot.AttrTypes, "x"), has(eo.Attrs, "x") && eo.Attrs["x"] == encX))
+
+
+// ===================================================================== Schema, emitted code (C10, C02, C17)
+//
+// GenSchema<shape>() for a message with the single field F: the attribute "f" carries the documented
+// flags, description, validators / plan modifiers and type (or nested attributes).
+
+//@ emits Schema when !FlagsOnly || FlagsOnly
+//@ define at = result0.Attributes["f"]
+//@ ensures [C10,C02,C01] len(result1) == 0 && result0.Attributes != nil && has(result0.Attributes, "f")
+
+//@ emits Schema when Kind != "Custom"
+//@ ensures [C10] at.Required == $IsRequired && at.Optional == !$IsRequired
+//@ ensures [C10] at.Computed == $IsComputed && at.Sensitive == $IsSensitive
+//@ ensures [C10] at.Description == "$Comment"
+//@ ensures [C10] len(at.Validators) == $NValidators && len(at.PlanModifiers) == $NPlanModifiers
+
+//@ emits Schema when NValidators == "02"
+//@ ensures [C10] at.Validators[0] == UseMockValidator() && at.Validators[1] == UseOtherValidator()
+
+//@ emits Schema when NPlanModifiers == "02"
+//@ ensures [C10] at.PlanModifiers[0] == tfsdk.UseStateForUnknown() && at.PlanModifiers[1] == UseMockPlanModifier()
+
+// kind decides between Type and nested attributes
+//@ emits Schema when Kind == "Primitive" || Kind == "PrimitiveList" || Kind == "PrimitiveMap"
+//@ ensures [C02,C10] at.Type == box($SchemaTypeExpr) && at.Attributes == nil
+
+//@ emits Schema when Kind == "Object"
+//@ ensures [C02] at.Type == nil && at.Attributes != nil && nesting(at.Attributes) == 1
+
+//@ emits Schema when Kind == "ObjectList"
+//@ ensures [C02] at.Type == nil && at.Attributes != nil && nesting(at.Attributes) == 2
+
+//@ emits Schema when Kind == "ObjectMap"
+//@ ensures [C02] at.Type == nil && at.Attributes != nil && nesting(at.Attributes) == 3
+
+// the nested message's attributes are generated by the same rule (marker: the custom field X)
+//@ emits Schema when (Kind == "Object" || Kind == "ObjectList" || Kind == "ObjectMap") && Nested == "marker"
+//@ ensures [C02,C10] has(nestedOf(at.Attributes), "x") && nestedOf(at.Attributes)["x"] == GenSchemaNESTED(ctx, tfsdk.Attribute{Optional: true})
+
+// a message without fields: the single computed Bool attribute `active`
+//@ emits Schema when (Kind == "Object" || Kind == "ObjectList" || Kind == "ObjectMap") && Nested == "empty"
+//@ define act = nestedOf(at.Attributes)["active"]
+//@ ensures [C10] has(nestedOf(at.Attributes), "active") && act.Computed && act.Optional && !act.Required && act.Type == box(types.BoolType)
+
+// custom types: the entry is what the user's hook returns for the attribute the field would otherwise get
+//@ emits Schema when Kind == "Custom"
+//@ ensures [C17,C10] at == GenSchemaHOOK(ctx, tfsdk.Attribute{Description: "$Comment", Optional: !$IsRequired, Required: $IsRequired, Computed: $IsComputed, Sensitive: $IsSensitive})
